@@ -10,3 +10,12 @@ package dns
 //@   ensures[C17:dns-when-requested] requested4(req.Options, 6) ==> (ret0 == resp && !ret1 && has(resp.Options, 6) && resp.Options[6] == optenc(opt_ips(6, dnsServers4)))
 //@   ensures[C17:dns-only-when-requested] !requested4(req.Options, 6) ==> (ret0 == resp && !ret1 && (has(resp.Options, 6) <==> old(has(resp.Options, 6))) && resp.Options[6] == old(resp.Options[6]))
 //@   ensures[C17:other-options-untouched] forall k uint8: k != 6 ==> ((has(resp.Options, k) <==> old(has(resp.Options, k))) && resp.Options[k] == old(resp.Options[k]))
+
+//@ func Handler6
+//@   implements handler.Handler6
+//@   modifies everything
+//@   ensures ret0 == resp && !ret1
+//@   ensures[C17:dns6-when-requested] oro_lists(oro6(inner6(req).Options), 23) ==> (optn6(resp.(*dhcpv6.Message))[23] == ite(old(optn6(resp.(*dhcpv6.Message))[23]) == 0, 1, old(optn6(resp.(*dhcpv6.Message))[23])) && \
+//@       (old(optn6(resp.(*dhcpv6.Message))[23]) <= 1 ==> optlast6(resp.(*dhcpv6.Message))[23] == o6_dns(dnsServers6)))
+//@   ensures[C17:dns6-only-when-requested] !oro_lists(oro6(inner6(req).Options), 23) ==> (optn6(resp.(*dhcpv6.Message)) == old(optn6(resp.(*dhcpv6.Message))) && optlast6(resp.(*dhcpv6.Message)) == old(optlast6(resp.(*dhcpv6.Message))))
+//@   ensures[C17:other-options-untouched] forall k uint16: k != 23 ==> (optn6(resp.(*dhcpv6.Message))[k] == old(optn6(resp.(*dhcpv6.Message))[k]) && optlast6(resp.(*dhcpv6.Message))[k] == old(optlast6(resp.(*dhcpv6.Message))[k]))
